@@ -851,3 +851,27 @@ def run(chk):
     chk.assume('extractor results carry the type given by extractor_type_name or by the explicit third argument of '
                'merge_all_tokens; DateTimeParseResult(source) copies source.type, which each parser checks against its '
                'parser_type_name; a datetime object always formats to a valid calendar date / clock time')
+
+
+
+# ---------------------------------------------------------------------------------------------------------------
+# generic rules (lead): cross-cutting necessary conditions scoped to the modules this property is anchored in
+# (sa/generic.py: filter predicates depend on their element; regex group names read by the code exist)
+
+def _generic_rules(chk):
+    import re as _re_
+    from ..index import get_index as _gi
+    from ..consteval import Resources as _Res
+    from .. import generic as _g
+    idx_ = _gi()
+    scope = _re_.compile('^(?!(base_)?(date|time|datetime|dateperiod|duration|timeperiod|datetimeperiod)(_|$))')
+    flt = lambda name: bool(scope.search(name.rsplit('.', 1)[-1]))
+    _g.rule_group_names(chk, idx_, _Res(idx_), 'C11.groups', 'recognizers_date_time', flt, floor=3)
+
+
+_run_before_generic = run
+
+
+def run(chk):       # noqa: F811
+    _run_before_generic(chk)
+    _generic_rules(chk)
